@@ -92,6 +92,9 @@ fn one_case(out: &mut Out, r: &mut Rng, len: usize) {
         let alive = h.alive_nodes();
         let choice = if alive.len() < 2 { 0 } else { r.below(16) };
         let mut this_pass = None;
+        // third clause of the property, evaluated on the implementation: the nodes whose own data or child list the op changes
+        let before: Vec<Option<bool>> = (0..h.ids.len()).map(|i| if h.alive[i] { Some(h.t.dirty(h.ids[i]).unwrap()) } else { None }).collect();
+        let mut mutated: Vec<usize> = vec![];
         match choice {
             0 | 1 => {
                 let hidden = r.chance(1, 6);
@@ -115,6 +118,7 @@ fn one_case(out: &mut Out, r: &mut Rng, len: usize) {
                 let st = H::style(r, hidden);
                 h.t.set_style(h.ids[n], st).unwrap();
                 h.hidden[n] = hidden;
+                mutated.push(n);
                 out.qa(&format!("style {n} {}", hidden as u8), "ok");
                 out.count("set_style");
             }
@@ -122,6 +126,7 @@ fn one_case(out: &mut Out, r: &mut Rng, len: usize) {
                 let n = *r.pick(&alive);
                 let ctx = if r.chance(1, 4) { None } else { Some(Ctx::Fixed(r.range(1, 10) as f32 * 3.0, 4.0)) };
                 h.t.set_node_context(h.ids[n], ctx).unwrap();
+                mutated.push(n);
                 out.qa(&format!("ctx {n}"), "ok");
                 out.count("set_node_context");
             }
@@ -142,6 +147,7 @@ fn one_case(out: &mut Out, r: &mut Rng, len: usize) {
                         h.t.add_child(h.ids[p], h.ids[c]).unwrap();
                         h.kids[p].push(c);
                         h.parent[c] = Some(p);
+                        mutated.push(p);
                         out.qa(&format!("add {p} {c}"), "ok");
                         out.count("add_child");
                     }
@@ -150,6 +156,7 @@ fn one_case(out: &mut Out, r: &mut Rng, len: usize) {
                         h.t.insert_child_at_index(h.ids[p], i, h.ids[c]).unwrap();
                         h.kids[p].insert(i, c);
                         h.parent[c] = Some(p);
+                        mutated.push(p);
                         out.qa(&format!("ins {p} {i} {c}"), "ok");
                         out.count("insert_child_at_index");
                     }
@@ -163,6 +170,7 @@ fn one_case(out: &mut Out, r: &mut Rng, len: usize) {
                         h.kids[p][i] = c;
                         h.parent[c] = Some(p);
                         h.parent[old] = None;
+                        mutated.push(p);
                         out.qa(&format!("repl {p} {i} {c}"), "ok");
                         out.count("replace_child_at_index");
                     }
@@ -179,6 +187,7 @@ fn one_case(out: &mut Out, r: &mut Rng, len: usize) {
                 h.t.remove_child_at_index(h.ids[p], i).unwrap();
                 let c = h.kids[p].remove(i);
                 h.parent[c] = None;
+                mutated.push(p);
                 out.qa(&format!("rmat {p} {i}"), "ok");
                 out.count("remove_child_at_index");
             }
@@ -194,6 +203,9 @@ fn one_case(out: &mut Out, r: &mut Rng, len: usize) {
                 let removed: Vec<usize> = h.kids[p].drain(a..b).collect();
                 for c in removed {
                     h.parent[c] = None;
+                }
+                if a < b {
+                    mutated.push(p);
                 }
                 out.qa(&format!("rmrange {p} {a} {b}"), "ok");
                 out.count("remove_children_range");
@@ -214,9 +226,13 @@ fn one_case(out: &mut Out, r: &mut Rng, len: usize) {
                 for c in old {
                     h.parent[c] = None;
                 }
+                mutated.push(p);
                 for &c in &cs {
                     if let Some(q) = h.parent[c] {
                         h.kids[q].retain(|x| *x != c);
+                        if q != p {
+                            mutated.push(q);
+                        }
                     }
                     h.parent[c] = Some(p);
                 }
@@ -231,6 +247,7 @@ fn one_case(out: &mut Out, r: &mut Rng, len: usize) {
                 h.t.remove(h.ids[n]).unwrap();
                 if let Some(p) = h.parent[n] {
                     h.kids[p].retain(|x| *x != n);
+                    mutated.push(p);
                 }
                 let ks = std::mem::take(&mut h.kids[n]);
                 for c in ks {
@@ -245,6 +262,7 @@ fn one_case(out: &mut Out, r: &mut Rng, len: usize) {
             11 => {
                 let n = *r.pick(&alive);
                 h.t.mark_dirty(h.ids[n]).unwrap();
+                mutated.push(n);
                 out.qa(&format!("dirty {n}"), "ok");
                 out.count("mark_dirty");
             }
@@ -284,6 +302,40 @@ fn one_case(out: &mut Out, r: &mut Rng, len: usize) {
                     }
                 }
                 nontrivial = true;
+            }
+        }
+        if !mutated.is_empty() {
+            let mut closure = vec![false; h.ids.len()];
+            for &m in &mutated {
+                if !h.alive[m] || h.below_hidden(m) {
+                    continue;
+                }
+                let mut cur = Some(m);
+                while let Some(x) = cur {
+                    closure[x] = true;
+                    if !h.t.dirty(h.ids[x]).unwrap() {
+                        out.impl_violation(format!(
+                            "sig:c15-mutation-leaves-clean after the op on node {m}, node {x} ({}) is not dirty",
+                            if x == m { "the mutated node" } else { "an ancestor" }
+                        ));
+                    }
+                    cur = h.parent[x];
+                }
+            }
+            // the property speaks about mutations of box-generating nodes only: a mutated node below display:none may or
+            // may not propagate (it does when it still holds results from an earlier pass as a root of its own)
+            let all_box_generating = mutated.iter().all(|&m| h.alive[m] && !h.below_hidden(m));
+            for i in 0..before.len() {
+                if !all_box_generating {
+                    break;
+                }
+                if let (Some(b), true, false) = (before[i], h.alive[i], closure[i]) {
+                    // a node that is neither mutated nor an ancestor keeps its status (mutated nodes below display:none may
+                    // or may not change theirs: the property speaks about box-generating nodes)
+                    if !mutated.contains(&i) && h.t.dirty(h.ids[i]).unwrap() != b {
+                        out.impl_violation(format!("sig:c15-mutation-touches-bystander node {i} changed its dirty status ({b} before) on an op that mutates {mutated:?}"));
+                    }
+                }
             }
         }
         last_pass = this_pass;
